@@ -1,7 +1,7 @@
 (* PropC12.v — C12: a batch append is all-or-nothing (one call = one entry; the codec validates the whole batch; replay applies all records of an entry or fails; a torn or damaged entry is delivered whole or not at all by the record reader).
    Statements only; each theorem is closed by `exact <lemma>`; proofs live in the imported files. *)
 From Coq Require Import Lia NArith List.
-From MRL Require Import Bytes Params Names Frame Record Mem Rolling Log Driver SpecRefine RecordProofs StreamProofs TornProofs DamageProofs.
+From MRL Require Import Bytes Params Names Frame Record Mem Rolling Log Driver SpecRefine RecordProofs StreamProofs TornProofs DamageProofs OpenReplay TornFile DamageFile.
 
 (* whatever decodes as an AppendRecords entry is exactly the serialization of the batch it decodes to: no partial batch *)
 Theorem C12_batch_decodes_whole :
@@ -85,4 +85,115 @@ Theorem C12_damaged_entry_dropped_whole :
     map MrEntry es1 ++ [MrCorrupt] ++ map MrEntry es2 ++ [MrEnd]).
 Proof. exact C09_one_damaged_entry. Qed.
 Print Assumptions C12_damaged_entry_dropped_whole.
+
+(* through files: after a crash inside the batch's call, open replays the batch's entry whole or not at all *)
+Theorem C12_open_torn :
+    forall P : params,
+    7 < BS P ->
+    BS P <= 65542 ->
+    1 <= NB P ->
+    (forall (t : byte) (p : bytes), crcf P t p < 2 ^ 32) ->
+    no_zero_collision P ->
+    forall (fs : fsT) (lo : N) (n : nat),
+    list_wal_numbers fs = GcProofs.iota lo (S n) ->
+    (forall f : N,
+    In f (GcProofs.iota lo (S n)) ->
+    exists b : bytes,
+    fs_get fs (filename f) = Some (FFile b) /\
+    lenN b <= FILE_BYTES P /\ (f <> lo + N.of_nat n -> lenN b = FILE_BYTES P)) ->
+    forall base : N,
+    base <= lo ->
+    forall (E_all X : list entry) (T : bytes) (c0 j z : N) (pol : policy) (hint : list bytes),
+    L_IO P = false ->
+    L_SHORT P = false ->
+    Forall wf_entry E_all ->
+    Forall wf_entry X ->
+    encs_rel P 0 (map entry_ser E_all) T ->
+    lenN T <= c0 ->
+    c0 <= ResyncProofs.first_frame_pos P (lenN T) ->
+    (lo - base) * FILE_BYTES P <= c0 ->
+    j <= lenN (ResyncProofs.encs_of P c0 (map entry_ser X)) ->
+    let S_all :=
+    T ++ zerosN (c0 - lenN T) ++ takeN j (ResyncProofs.encs_of P c0 (map entry_ser X)) ++ zerosN z in
+    FileStream.stream_of (fs_ext P fs lo n) (GcProofs.iota lo (S n)) =
+    dropN ((lo - base) * FILE_BYTES P) S_all ->
+    lenN S_all = (lo + N.of_nat n - base + 1) * FILE_BYTES P ->
+    exists (w0 : rwriter) (tags : list N) (E_pre E_suf X1 Xr Xd : list entry)
+    (pf : N),
+    E_all = E_pre ++ E_suf /\
+    map entry_ser E_pre =
+    ResyncProofs.skipped_before P ((lo - base) * FILE_BYTES P) 0 (map entry_ser E_all) /\
+    map entry_ser E_suf =
+    ResyncProofs.delivered_from P ((lo - base) * FILE_BYTES P) 0 (map entry_ser E_all) /\
+    X = X1 ++ Xr /\
+    lenN (ResyncProofs.encs_of P c0 (map entry_ser X1)) <= j /\
+    match Xr with
+    | [] => j = lenN (ResyncProofs.encs_of P c0 (map entry_ser X))
+    | x :: _ => j < lenN (ResyncProofs.encs_of P c0 (map entry_ser (X1 ++ [x])))
+    end /\
+    (Xd = X1 \/
+    (exists (x : entry) (X2 : list entry),
+    Xr = x :: X2 /\
+    Xd = X1 ++ [x] /\
+    all_zero (dropN j (ResyncProofs.encs_of P c0 (map entry_ser (X1 ++ [x])))) = true)) /\
+    fspec P lo n base (fs_ext P fs lo n) w0 tags
+    (ResyncProofs.starts P
+    (ResyncProofs.cursor_after P 0
+    (ResyncProofs.skipped_before P ((lo - base) * FILE_BYTES P) 0 (map entry_ser E_all)))
+    (map entry_ser (E_suf ++ Xd))) pf /\
+    lenN T <= pf /\
+    (Xd <> [] -> c0 + lenN (ResyncProofs.encs_of P c0 (map entry_ser Xd)) <= pf) /\
+    pf <= lenN S_all /\
+    (forall m : N, c0 + j <= m * BS P -> (lo - base) * FILE_BYTES P <= m * BS P -> pf <= m * BS P) /\
+    resume_ok P S_all pf /\
+    match GhostLog.replay_entries [] (combine tags (E_suf ++ Xd)) with
+    | Some qs => open P fs None pol hint = open_finish P w0 qs pol hint
+    | None => exists c' : ioctx, open P fs None pol hint = OpenCorruption c'
+    end.
+Proof. exact open_torn. Qed.
+Print Assumptions C12_open_torn.
+
+(* through files: with frames of the batch's entry damaged (CRC fails), open drops the entry as a whole *)
+Theorem C12_open_damaged :
+    forall P : params,
+    7 < BS P ->
+    BS P <= 65542 ->
+    1 <= NB P ->
+    (forall (t : byte) (p : bytes), crcf P t p < 2 ^ 32) ->
+    forall (fs : fsT) (lo : N) (n : nat),
+    (forall f : N,
+    In f (GcProofs.iota lo (S n)) ->
+    exists b : bytes, fs_get fs (filename f) = Some (FFile b) /\ lenN b = FILE_BYTES P) ->
+    forall (base : N) (E_all : list entry) (pxs : list (bytes * list DamageProofs.fspec))
+    (T' : bytes) (z : N) (pol : policy) (hint : list bytes),
+    L_IO P = false ->
+    base <= lo ->
+    list_wal_numbers fs = GcProofs.iota lo (S n) ->
+    Forall wf_entry E_all ->
+    map fst pxs = map entry_ser E_all ->
+    encs_any P 0 pxs T' ->
+    FileStream.stream_of fs (GcProofs.iota lo (S n)) = dropN ((lo - base) * FILE_BYTES P) (T' ++ zerosN z) ->
+    lenN (T' ++ zerosN z) = (lo + N.of_nat n - base + 1) * FILE_BYTES P ->
+    let b := (lo - base) * FILE_BYTES P in
+    exists
+    (w0 : rwriter) (tags : list N) (E_pre E_suf : list entry) (pxs1
+    pxs2 : list
+    (bytes * list DamageProofs.fspec)),
+    E_all = E_pre ++ E_suf /\
+    pxs = pxs1 ++ pxs2 /\
+    map fst pxs1 = map entry_ser E_pre /\
+    map fst pxs2 = map entry_ser E_suf /\
+    map entry_ser E_pre = ResyncProofs.skipped_before P b 0 (map entry_ser E_all) /\
+    map entry_ser E_suf = ResyncProofs.delivered_from P b 0 (map entry_ser E_all) /\
+    lenN T' = lenN (ResyncProofs.encs_of P 0 (map entry_ser E_all)) /\
+    (let E_ok := ok_entries P pxs2 E_suf in
+    dmg_spec P fs lo n base w0 tags
+    (ok_sts P (ResyncProofs.cursor_after P 0 (map entry_ser E_pre)) pxs2)
+    (N.max b (lenN T')) /\
+    match GhostLog.replay_entries [] (combine tags E_ok) with
+    | Some qs => open P fs None pol hint = open_finish P w0 qs pol hint
+    | None => exists c : ioctx, open P fs None pol hint = OpenCorruption c
+    end).
+Proof. exact open_damaged. Qed.
+Print Assumptions C12_open_damaged.
 
